@@ -9,6 +9,8 @@ import Imeta.Lemmas.ExifFlat
 namespace Imeta.Exif
 open Imeta
 
+variable {ex0 : Rec}
+
 def DisjS (sz : Tag → Nat) (a b : Tag) : Prop := a.off + sz a ≤ b.off ∨ b.off + sz b ≤ a.off
 def LayS (sz : Tag → Nat) (l : List Tag) : Prop := l.Pairwise (fun a b => a.off + sz a ≤ b.off)
 
@@ -119,7 +121,7 @@ theorem addTag_layS (sz : Tag → Nat) (r : R) (t : Tag) (hl : LayS sz r.tags) (
 
 theorem entriesLoop_gen {F : Bytes} (tb : Tables) (ifd : Ifd) (buf : Bytes) (D : Nat) (sz : Tag → Nat)
     (Old : Tag → Prop) : ∀ (n i : Nat) (r r' : R),
-    Coh F r → Exact F r → r.po ≤ D → r.pos = 0 → LayS sz r.tags →
+    Coh F r → Exact tb ex0 F r → r.po ≤ D → r.pos = 0 → LayS sz r.tags →
     (∀ x ∈ r.tags, Old x ∨ ∃ k, k < i ∧ entryAt ifd buf k = .ok (some x) ∧ x.isEmbedded = false) →
     (∀ l : List Tag, LayS sz l → (∀ x ∈ l, Old x ∨ ∃ k, k < i + n ∧ entryAt ifd buf k = .ok (some x) ∧ x.isEmbedded = false) → l.length ≤ 83) →
     (∀ k t, k < i + n → entryAt ifd buf k = .ok (some t) → (t.isEmbedded = true → ¬ Reads t) ∧ (t.isEmbedded = false → D ≤ t.off ∧ 0 < sz t)) →
@@ -127,7 +129,7 @@ theorem entriesLoop_gen {F : Bytes} (tb : Tables) (ifd : Ifd) (buf : Bytes) (D :
       t.isEmbedded = false → t'.isEmbedded = false → DisjS sz t t') →
     (∀ x, Old x → 0 < sz x ∧ ∀ k t, k < i + n → entryAt ifd buf k = .ok (some t) → t.isEmbedded = false → DisjS sz t x) →
     entriesLoop tb ifd buf n i r = .ok r' →
-    Coh F r' ∧ Exact F r' ∧ r'.po = r.po ∧ r'.pos = 0 ∧ r'.exifLength = r.exifLength ∧ readLimit r' = readLimit r ∧ LayS sz r'.tags ∧
+    Coh F r' ∧ Exact tb ex0 F r' ∧ r'.po = r.po ∧ r'.pos = 0 ∧ r'.exifLength = r.exifLength ∧ readLimit r' = readLimit r ∧ LayS sz r'.tags ∧
     (∀ x ∈ r'.tags, Old x ∨ ∃ k, k < i + n ∧ entryAt ifd buf k = .ok (some x) ∧ x.isEmbedded = false) ∧
     (∀ x ∈ r.tags, x ∈ r'.tags) := by
   intro n
@@ -153,10 +155,10 @@ theorem entriesLoop_gen {F : Bytes} (tb : Tables) (ifd : Ifd) (buf : Bytes) (D :
       · exact Or.inr ⟨k, by omega, hr⟩
     have fin : ∀ (r2 : R), r2.po = r.po → r2.exifLength = r.exifLength → readLimit r2 = readLimit r →
         (∀ x ∈ r.tags, x ∈ r2.tags) →
-        (Coh F r' ∧ Exact F r' ∧ r'.po = r2.po ∧ r'.pos = 0 ∧ r'.exifLength = r2.exifLength ∧ readLimit r' = readLimit r2 ∧ LayS sz r'.tags ∧
+        (Coh F r' ∧ Exact tb ex0 F r' ∧ r'.po = r2.po ∧ r'.pos = 0 ∧ r'.exifLength = r2.exifLength ∧ readLimit r' = readLimit r2 ∧ LayS sz r'.tags ∧
           (∀ x ∈ r'.tags, Old x ∨ ∃ k, k < i + 1 + n ∧ entryAt ifd buf k = .ok (some x) ∧ x.isEmbedded = false) ∧
           (∀ x ∈ r2.tags, x ∈ r'.tags)) →
-        Coh F r' ∧ Exact F r' ∧ r'.po = r.po ∧ r'.pos = 0 ∧ r'.exifLength = r.exifLength ∧ readLimit r' = readLimit r ∧ LayS sz r'.tags ∧
+        Coh F r' ∧ Exact tb ex0 F r' ∧ r'.po = r.po ∧ r'.pos = 0 ∧ r'.exifLength = r.exifLength ∧ readLimit r' = readLimit r ∧ LayS sz r'.tags ∧
           (∀ x ∈ r'.tags, Old x ∨ ∃ k, k < i + (n + 1) ∧ entryAt ifd buf k = .ok (some x) ∧ x.isEmbedded = false) ∧
           (∀ x ∈ r.tags, x ∈ r'.tags) := by
       intro r2 e1 e2 e3 hsub ⟨a, b, c, d, e4, f, g, hh, hs⟩
@@ -180,7 +182,7 @@ theorem entriesLoop_gen {F : Bytes} (tb : Tables) (ifd : Ifd) (buf : Bytes) (D :
         obtain ⟨r1, h1, h⟩ := bind_ok h
         have hs := parseTag_quiet tb r r1 t (hg.1 hemb) h1
         have hc1 : Coh F r1 := ⟨by rw [hs.rest, hs.po]; exact hc.rest, by rw [hs.po]; exact hc.le, hc.small⟩
-        have he1 : Exact F r1 := by intro x hx; rw [hs.reads] at hx; exact he x hx
+        have he1 : Exact tb ex0 F r1 := parseTag_quiet_exact r r1 t (hg.1 hemb) he h1
         have hl1 : readLimit r1 = readLimit r := by unfold readLimit; rw [hs.buffered]
         exact fin r1 hs.po hs.exl hl1 (by rw [hs.tags]; exact fun x hx => hx)
           (ih (i + 1) r1 r' hc1 he1 (by rw [hs.po]; exact hD) (by rw [hs.pos]; exact hpos) (by rw [hs.tags]; exact hlay)
@@ -209,7 +211,7 @@ theorem entriesLoop_gen {F : Bytes} (tb : Tables) (ifd : Ifd) (buf : Bytes) (D :
         have hpos1 : (addTag r t).pos = r.pos := hs.pos
         have hrd1 : (addTag r t).reads = r.reads := hs.reads
         have hc1 : Coh F (addTag r t) := ⟨by rw [hrest1, hpo1]; exact hc.rest, by rw [hpo1]; exact hc.le, hc.small⟩
-        have he1 : Exact F (addTag r t) := by intro x hx; rw [hrd1] at hx; exact he x hx
+        have he1 : Exact tb ex0 F (addTag r t) := he.transfer hrd1 (addTag_keep r t).1 (addTag_keep r t).2
         have hl1 : readLimit (addTag r t) = readLimit r := by unfold readLimit; rw [hbuf1]
         have hmem1 : ∀ x ∈ (addTag r t).tags, Old x ∨ ∃ k, k < i + 1 ∧ entryAt ifd buf k = .ok (some x) ∧ x.isEmbedded = false := by
           intro x hx
@@ -252,12 +254,12 @@ theorem FlatDir.dirOK {F : Bytes} {ifd : Ifd} {d cnt exl lim : Nat} (h : FlatDir
 
 theorem readIfdHeader_gen {F : Bytes} (tb : Tables) (ifd : Ifd) (r r1 : R) (e1 : Option ErrKind) (cnt : Nat) (sz : Tag → Nat)
     (Old : Tag → Prop)
-    (hc : Coh F r) (he : Exact F r) (hpos : r.pos = 0) (hlay : LayS sz r.tags) (hmem : ∀ x ∈ r.tags, Old x)
+    (hc : Coh F r) (he : Exact tb ex0 F r) (hpos : r.pos = 0) (hlay : LayS sz r.tags) (hmem : ∀ x ∈ r.tags, Old x)
     (hcap : ∀ l : List Tag, LayS sz l → (∀ x ∈ l, Old x ∨ IsEntry F ifd r.po cnt x) → l.length ≤ 83)
     (hd : DirOK F ifd r.po cnt r.exifLength (readLimit r) sz)
     (hold : ∀ x, Old x → 0 < sz x ∧ ∀ t, IsEntry F ifd r.po cnt t → DisjS sz t x)
     (h : readIfdHeader tb r ifd = .ok (r1, e1)) :
-    Coh F r1 ∧ Exact F r1 ∧ r1.po ≤ r.po + 2 + 12 * cnt + 4 ∧ r1.pos = 0 ∧ r1.exifLength = r.exifLength ∧ readLimit r1 = readLimit r ∧
+    Coh F r1 ∧ Exact tb ex0 F r1 ∧ r1.po ≤ r.po + 2 + 12 * cnt + 4 ∧ r1.pos = 0 ∧ r1.exifLength = r.exifLength ∧ readLimit r1 = readLimit r ∧
     LayS sz r1.tags ∧ (∀ x ∈ r1.tags, Old x ∨ IsEntry F ifd r.po cnt x) ∧ (∀ x ∈ r.tags, x ∈ r1.tags) := by
   have hF := hd.inFile
   have hx := hd.inExif
@@ -287,7 +289,7 @@ theorem readIfdHeader_gen {F : Bytes} (tb : Tables) (ifd : Ifd) (r r1 : R) (e1 :
   dsimp only at h
   obtain ⟨r3, hloop, hnx⟩ := bind_ok h
   rw [hbuf3] at hloop
-  have hE3 : Exact F (fastRead (fastRead r 2).r (cnt * 12)).r := by intro x hx; rw [hk3.reads] at hx; exact he x hx
+  have hE3 : Exact tb ex0 F (fastRead (fastRead r 2).r (cnt * 12)).r := he.keep hk3
   have hgen := entriesLoop_gen (F := F) tb ifd _ (r.po + 2 + 12 * cnt + 4) sz Old cnt 0 _ r3 hc3 hE3 (by rw [hpo3]; omega)
     (by rw [hk3.pos]; exact hpos) (by rw [hk3.tags]; exact hlay) (by rw [hk3.tags]; exact fun x hx => Or.inl (hmem x hx))
     (fun l hl hm => hcap l hl (fun x hx => by rcases hm x hx with ho | ⟨k, hk, e, o⟩; exact Or.inl ho; exact Or.inr ⟨k, by omega, e, o⟩))
@@ -324,7 +326,7 @@ theorem readIfdHeader_gen {F : Bytes} (tb : Tables) (ifd : Ifd) (r r1 : R) (e1 :
     simp only [Outcome.ok.injEq, Prod.mk.injEq] at hnx
     rw [← hnx.1]
     have hl5 : readLimit (fastRead r3 4).r = readLimit r := by unfold readLimit at hlim4 ⊢; rw [hk5.buffered]; exact hlim4
-    refine ⟨hc5, by intro x hx; rw [hk5.reads] at hx; exact he4 x hx, by rw [hr5.2.2, hpo4]; omega, by rw [hk5.pos]; exact hpos4,
+    refine ⟨hc5, he4.keep hk5, by rw [hr5.2.2, hpo4]; omega, by rw [hk5.pos]; exact hpos4,
       by rw [hk5.exl]; exact hexl4, hl5, by rw [hk5.tags]; exact hlay4, by rw [hk5.tags]; exact hmem5, by rw [hk5.tags]; exact hsub4⟩
   · simp only [Outcome.ok.injEq, Prod.mk.injEq] at hnx
     rw [← hnx.1]
@@ -401,10 +403,13 @@ theorem reset_queue (r : R) : (resetPosition r).tags = r.tags.drop r.pos ∧ (re
     have : r.pos = 0 := by omega
     exact ⟨by rw [this]; rfl, this, rfl, rfl, rfl, rfl, rfl⟩
 
+theorem reset_keep (r : R) : (resetPosition r).ex = r.ex ∧ (resetPosition r).parsed = r.parsed := by
+  unfold resetPosition; split <;> exact ⟨rfl, rfl⟩
+
 /-- the invariant of the work loop in a nested forward layout -/
-structure NInv (F : Bytes) (exl lim : Nat) (W : Tag → Prop) (r : R) : Prop where
+structure NInv (tb : Tables) (ex0 : Rec) (F : Bytes) (exl lim : Nat) (W : Tag → Prop) (r : R) : Prop where
   coh : Coh F r
-  exact : Exact F r
+  exact : Exact tb ex0 F r
   exl : r.exifLength = exl
   lim : readLimit r = lim
   lay : LayS (extent F) (r.tags.drop r.pos)
@@ -431,7 +436,7 @@ theorem childType_ne_ifd0 (p : Tag) (hp : IsPtr p) : ifd0 ≠ p.childIfd.typ := 
   · rw [h1]; decide
 
 theorem ifdLoop_nested {F : Bytes} {exl lim : Nat} {W : Tag → Prop} (w : World F exl lim W) (tb : Tables) :
-    ∀ (f : Nat) (r r' : R), NInv F exl lim W r → ifdLoop tb f r = .ok r' → Coh F r' ∧ Exact F r' := by
+    ∀ (f : Nat) (r r' : R), NInv tb ex0 F exl lim W r → ifdLoop tb f r = .ok r' → Coh F r' ∧ Exact tb ex0 F r' := by
   intro f
   induction f with
   | zero => intro r r' _ h; unfold Exif.ifdLoop at h; cases h
@@ -462,7 +467,7 @@ theorem ifdLoop_nested {F : Bytes} {exl lim : Nat} {W : Tag → Prop} (w : World
         have hq : ({ r1 with pos := r1.pos + 1 } : R).tags.drop ({ r1 with pos := r1.pos + 1 } : R).pos = r.tags.drop (r.pos + 1) := by
           show r1.tags.drop (r1.pos + 1) = _
           rw [htags, hpos]
-        refine ⟨⟨hc1.rest, hc1.le, hc1.small⟩, he1, hexl.trans inv.exl, hl1.trans inv.lim, ?_, ?_, ?_, ?_⟩
+        refine ⟨⟨hc1.rest, hc1.le, hc1.small⟩, ⟨he1.reads, he1.ref⟩, hexl.trans inv.exl, hl1.trans inv.lim, ?_, ?_, ?_, ?_⟩
         · rw [hq]; exact hlayQ.2
         · rw [hq]; intro x hx; exact inv.inW x (by rw [hdrop]; exact List.mem_cons_of_mem _ hx)
         · rw [hq]; intro x hx
@@ -491,7 +496,8 @@ theorem ifdLoop_nested {F : Bytes} {exl lim : Nat} {W : Tag → Prop} (w : World
         obtain ⟨hq2, hpos2, hrest2, hpo2, hexl2, hbuf2, hrd2⟩ := hrq
         have hQ2 : (resetPosition r1).tags = t :: r.tags.drop (r.pos + 1) := by rw [hq2, hkd.tags, hkd.pos, hdrop]
         have hc2 : Coh F (resetPosition r1) := ⟨by rw [hrest2, hpo2]; exact hcd.rest, by rw [hpo2]; exact hcd.le, hcd.small⟩
-        have he2 : Exact F (resetPosition r1) := by intro x hx; rw [hrd2, hkd.reads] at hx; exact inv.exact x hx
+        have he2 : Exact tb ex0 F (resetPosition r1) :=
+          inv.exact.transfer (hrd2.trans hkd.reads) ((reset_keep r1).1.trans hkd.ex) ((reset_keep r1).2.trans hkd.parsed)
         have hl2 : readLimit (resetPosition r1) = lim := by unfold readLimit; rw [hbuf2, hkd.buffered]; exact inv.lim
         have hx2 : (resetPosition r1).exifLength = exl := by rw [hexl2, hkd.exl]; exact inv.exl
         unfold Exif.ifdChild at h3
@@ -563,7 +569,7 @@ theorem ifdLoop_nested {F : Bytes} {exl lim : Nat} {W : Tag → Prop} (w : World
               omega
             · exact Or.inl ho
           · exact Or.inr hc
-        refine ⟨⟨hc3.rest, hc3.le, hc3.small⟩, he3, hexl3.trans hx2, hlim3.trans hl2, ?_, ?_, ?_, ?_⟩
+        refine ⟨⟨hc3.rest, hc3.le, hc3.small⟩, ⟨he3.reads, he3.ref⟩, hexl3.trans hx2, hlim3.trans hl2, ?_, ?_, ?_, ?_⟩
         · rw [hq]; exact hlay3'.2
         · rw [hq]; intro x hx
           rcases hmemtl x hx with ho | hc
@@ -596,10 +602,10 @@ theorem ifdLoop_nested {F : Bytes} {exl lim : Nat} {W : Tag → Prop} (w : World
 a forward layout without overlap (`World`): coherent reader, every read exact -/
 theorem readIfd_nested {F : Bytes} {W : Tag → Prop} (tb : Tables) (fuel : Nat) (ifd : Ifd) (r r' : R) (e : Option ErrKind) (cnt : Nat)
     (w : World F r.exifLength (readLimit r) W)
-    (hc : Coh F r) (he : Exact F r) (htags : r.tags = []) (hpos : r.pos = 0)
+    (hc : Coh F r) (he : Exact tb ex0 F r) (htags : r.tags = []) (hpos : r.pos = 0)
     (hroot : DirOK F ifd r.po cnt r.exifLength (readLimit r) (extent F))
     (hrootW : ∀ x, IsEntry F ifd r.po cnt x → W x)
-    (h : readIfd tb fuel r ifd = .ok (r', e)) : Coh F r' ∧ Exact F r' := by
+    (h : readIfd tb fuel r ifd = .ok (r', e)) : Coh F r' ∧ Exact tb ex0 F r' := by
   unfold Exif.readIfd at h
   obtain ⟨p, hp, h⟩ := bind_ok h
   obtain ⟨r1, e1⟩ := p
@@ -635,11 +641,13 @@ theorem decodeTiff_nested (tb : Tables) (F : Bytes) (buffered : Bool) (h : Hdr) 
     (hroot : DirOK F { off := 0, base := 0, order := h.order, typ := h.firstIfdType, idx := 0 } h.firstIfd cnt (4 * 1024 * 1024)
       (if buffered then bufioSize else scratchSize) (extent F))
     (hrootW : ∀ x, IsEntry F { off := 0, base := 0, order := h.order, typ := h.firstIfdType, idx := 0 } h.firstIfd cnt x → W x)
-    (hres : decodeTiff tb F buffered h = .ok (r', e)) : Coh F r' ∧ Exact F r' := by
+    (hres : decodeTiff tb F buffered h = .ok (r', e)) : Coh F r' ∧ Exact tb { imageType := h.imageType } F r' := by
   unfold Exif.decodeTiff at hres
   dsimp only at hres
   have hc0 : Coh F { rest := F, po := 0, exifLength := 4 * 1024 * 1024, buffered := buffered, ex := { imageType := h.imageType } } :=
     ⟨by simp, Nat.zero_le _, hsmall⟩
+  have he0 : Exact tb { imageType := h.imageType } F { rest := F, po := 0, exifLength := 4 * 1024 * 1024, buffered := buffered, ex := { imageType := h.imageType } } :=
+    Exact.init tb F { rest := F, po := 0, exifLength := 4 * 1024 * 1024, buffered := buffered, ex := { imageType := h.imageType } } rfl rfl
   have hF := hroot.inFile
   have hX := hroot.inExif
   have hde := discard_exact hc0 h.firstIfd (by simp only; omega) (by simp only; omega)
@@ -650,13 +658,13 @@ theorem decodeTiff_nested (tb : Tables) (F : Bytes) (buffered : Bool) (h : Hdr) 
     rename_i r1 e1 hdd
     rw [hdd] at hcd hkd
     rw [← hres.1]
-    exact ⟨hcd, by intro x hx; rw [hkd.reads] at hx; cases hx⟩
+    exact ⟨hcd, he0.keep hkd⟩
   · rename_i r1 hdd
     rw [hdd] at hcd hkd hde
     dsimp only at hde hcd hkd
     have hpo : r1.po = h.firstIfd := by rw [hde.2]; simp
     have hlim : readLimit r1 = (if buffered then bufioSize else scratchSize) := by unfold readLimit; rw [hkd.buffered]
-    exact readIfd_nested tb _ _ r1 r' e cnt (by rw [hkd.exl, hlim]; exact w) hcd (by intro x hx; rw [hkd.reads] at hx; cases hx)
+    exact readIfd_nested tb _ _ r1 r' e cnt (by rw [hkd.exl, hlim]; exact w) hcd (he0.keep hkd)
       hkd.tags hkd.pos (by rw [hpo, hkd.exl, hlim]; exact hroot) (by rw [hpo]; exact hrootW) hres
 
 /-- the same for DecodeJPEGIfd (JPEG APP1 payload F, Exif length from the segment) -/
@@ -666,11 +674,13 @@ theorem decodeJPEGIfd_nested (tb : Tables) (F : Bytes) (buffered : Bool) (h : Hd
     (hroot : DirOK F { off := 0, base := 0, order := h.order, typ := h.firstIfdType, idx := 0 } h.firstIfd cnt h.exifLength
       (if buffered then bufioSize else scratchSize) (extent F))
     (hrootW : ∀ x, IsEntry F { off := 0, base := 0, order := h.order, typ := h.firstIfdType, idx := 0 } h.firstIfd cnt x → W x)
-    (hres : decodeJPEGIfd tb F buffered h = .ok (r', e)) : Coh F r' ∧ Exact F r' := by
+    (hres : decodeJPEGIfd tb F buffered h = .ok (r', e)) : Coh F r' ∧ Exact tb { imageType := h.imageType } F r' := by
   unfold Exif.decodeJPEGIfd at hres
   dsimp only at hres
   have hc0 : Coh F { rest := F, po := 0, exifLength := h.exifLength, buffered := buffered, ex := { imageType := h.imageType } } :=
     ⟨by simp, Nat.zero_le _, hsmall⟩
+  have he0 : Exact tb { imageType := h.imageType } F { rest := F, po := 0, exifLength := h.exifLength, buffered := buffered, ex := { imageType := h.imageType } } :=
+    Exact.init tb F { rest := F, po := 0, exifLength := h.exifLength, buffered := buffered, ex := { imageType := h.imageType } } rfl rfl
   have hF := hroot.inFile
   have hX := hroot.inExif
   have hde := discard_exact hc0 h.firstIfd (by simp only; omega) (by simp only; omega)
@@ -683,13 +693,13 @@ theorem decodeJPEGIfd_nested (tb : Tables) (F : Bytes) (buffered : Bool) (h : Hd
   have hlim : readLimit r1 = (if buffered then bufioSize else scratchSize) := by unfold readLimit; rw [hkd.buffered]
   obtain ⟨p2, h2, hres⟩ := bind_ok hres
   obtain ⟨r2, e2⟩ := p2
-  have hn := readIfd_nested tb _ _ r1 r2 e2 cnt (by rw [hkd.exl, hlim]; exact w) hcd (by intro x hx; rw [hkd.reads] at hx; cases hx)
+  have hn := readIfd_nested tb _ _ r1 r2 e2 cnt (by rw [hkd.exl, hlim]; exact w) hcd (he0.keep hkd)
     hkd.tags hkd.pos (by rw [hpo, hkd.exl, hlim]; exact hroot) (by rw [hpo]; exact hrootW) h2
   dsimp only at hres
   split at hres
   · simp only [Outcome.ok.injEq, Prod.mk.injEq] at hres; rw [← hres.1]; exact hn
   · simp only [Outcome.ok.injEq, Prod.mk.injEq] at hres; rw [← hres.1]
-    exact ⟨hn.1.discard _, by intro x hx; rw [(Keep.discard r2 _).reads] at hx; exact hn.2 x hx⟩
+    exact ⟨hn.1.discard _, hn.2.keep (Keep.discard r2 _)⟩
 
 /-- the same for DecodeIfd (CR3 CMT boxes): the stream starts at the first directory, F is the payload from its Tiff
 header on -/
@@ -699,7 +709,7 @@ theorem decodeIfd_nested (tb : Tables) (F rest : Bytes) (buffered : Bool) (h : H
     (hroot : DirOK F { off := 0, base := 0, order := h.order, typ := h.firstIfdType, idx := 0 } h.firstIfd cnt h.exifLength
       (if buffered then bufioSize else scratchSize) (extent F))
     (hrootW : ∀ x, IsEntry F { off := 0, base := 0, order := h.order, typ := h.firstIfdType, idx := 0 } h.firstIfd cnt x → W x)
-    (hres : decodeIfd tb rest buffered h = .ok (r', e)) : Coh F r' ∧ Exact F r' := by
+    (hres : decodeIfd tb rest buffered h = .ok (r', e)) : Coh F r' ∧ Exact tb { imageType := h.imageType } F r' := by
   unfold Exif.decodeIfd at hres
   dsimp only at hres
   have hc0 : Coh F { rest := rest, po := h.firstIfd, exifLength := h.exifLength, buffered := buffered, ex := { imageType := h.imageType } } :=
@@ -707,7 +717,7 @@ theorem decodeIfd_nested (tb : Tables) (F rest : Bytes) (buffered : Bool) (h : H
   have hlim : readLimit ({ rest := rest, po := h.firstIfd, exifLength := h.exifLength, buffered := buffered, ex := { imageType := h.imageType } } : R)
       = (if buffered then bufioSize else scratchSize) := rfl
   -- the model passes fuelFor rest; any fuel will do
-  exact readIfd_nested tb _ _ _ r' e cnt (by rw [hlim]; exact w) hc0 (by intro x hx; cases hx) rfl rfl (by rw [hlim]; exact hroot) hrootW hres
+  exact readIfd_nested tb _ _ _ r' e cnt (by rw [hlim]; exact w) hc0 (Exact.init tb F { rest := rest, po := h.firstIfd, exifLength := h.exifLength, buffered := buffered, ex := { imageType := h.imageType } } rfl rfl) rfl rfl (by rw [hlim]; exact hroot) hrootW hres
 
 /-- the capacity condition of `World` for a layout given as a list of at most 83 tags -/
 theorem cap_of_list (F : Bytes) (ws : List Tag) (hlen : ws.length ≤ 83) (W : Tag → Prop) (hW : ∀ x, W x → x ∈ ws)
